@@ -230,7 +230,7 @@ func mutations(r *gen.Rand, v *ref.Value) map[string]*ref.Value {
 func runC02(c *mon.Ctx) {
 	r := c.Rand("objects")
 	sc := gen.Scramble(c.Rand("scramble"))
-	n := c.Scale(1500, 60000)
+	n := c.Scale(1500, 400000)
 	for k := 0; k < n; k++ {
 		obj := gen.RandObject(r, gen.JSONOpts{Depth: r.Range(1, 4), Width: r.Range(1, 6)})
 		// optionally a pre-existing unsigned / signatures member
